@@ -727,7 +727,8 @@ static void gentabs(void)
 
 	/* Begin generating yy_base */
 	sz = total_states + 1;
-	ptype = optimize_pack(sz);
+	/* yy_base holds offsets into yy_nxt/yy_chk: its type depends on tblend */
+	ptype = optimize_pack((size_t) (tblend > sz ? tblend : sz));
 	out_str ("m4_define([[M4_HOOK_BASE_TYPE]], [[%s]])", ptype->name);
 	out_dec ("m4_define([[M4_HOOK_BASE_SIZE]], [[%d]])", sz);
 	outn ("m4_define([[M4_HOOK_BASE_BODY]], [[m4_dnl");
